@@ -697,6 +697,10 @@ pub fn menu(ty: &Ty, id: usize, side: Side) -> Vec<V> {
                     V::A(vec![param(-7, PUBLIC_KEY)]),
                     V::A(vec![]),
                     V::A(vec![param(-8, PUBLIC_KEY), param(-7, PUBLIC_KEY)]),
+                    V::A(vec![param(-7, PUBLIC_KEY), param(-8, PUBLIC_KEY)]),
+                    V::A(vec![param(-7, PUBLIC_KEY), param(-7, PUBLIC_KEY)]),
+                    V::A(vec![param(-8, PUBLIC_KEY), param(-8, PUBLIC_KEY)]),
+                    V::A(vec![param(-8, PUBLIC_KEY)]),
                 ]
             }
         }
@@ -705,6 +709,8 @@ pub fn menu(ty: &Ty, id: usize, side: Side) -> Vec<V> {
             V::A(vec![]),
             V::A(vec![param(-8, PUBLIC_KEY), param(-7, PUBLIC_KEY)]),
             V::A(vec![param(-257, PUBLIC_KEY)]),
+            V::A(vec![param(-7, PUBLIC_KEY), param(-7, PUBLIC_KEY)]),
+            V::A(vec![param(-7, PUBLIC_KEY), param(-8, PUBLIC_KEY)]),
             V::A(vec![param(-7, PUBLIC_KEY), param(-65537, PUBLIC_KEY)]),
             V::A(vec![param(i32::MIN as i64, PUBLIC_KEY), param(i32::MAX as i64, PUBLIC_KEY)]),
         ],
